@@ -1,7 +1,7 @@
 --------------------------- MODULE TokenizerTrace ---------------------------
 (* Recorded calls of the real TokenParser / StringArgs / ArgvArgs checked against Tokenizer.
    event: [s, hasIntent, intent, quoteKnown, styles, seps, lead, trail,           -- input (characters as 1-char strings)
-           obs: [kind ("ok"|"exc"), cls, toks, opt],                   -- StringArgs(s).tokens / option_tokens
+           obs: [kind ("ok"|"exc"), cls, toks, opt, toksAfter],                   -- StringArgs(s).tokens / option_tokens
            hasArgv, argv: [toks, opt], outStr, outArgv]                -- ArgvArgs(["prog"]+intent); parser+resolver outcomes *)
 EXTENDS Tokenizer, TraceKit
 
@@ -25,6 +25,8 @@ Clauses(e) ==
   /\ Check(tid, l, "P.total", e.obs.cls, e.obs.kind = "ok")
   /\ Check(tid, l, "P.roundtrip", "", e.hasIntent => e.obs.toks = e.intent)
   /\ Check(tid, l, "P.unquoted", "", Plain(e.s) => e.obs.toks = SplitWS(e.s, <<>>))
+  \* the object keeps its tokens when other command strings are tokenised afterwards
+  /\ Check(tid, l, "P.stable", "", e.obs.kind = "ok" => e.obs.toksAfter = e.obs.toks)
   /\ Check(tid, l, "P.optprefix", "", e.obs.opt = OptionPrefix(e.obs.toks))
   /\ Check(tid, l, "P.argv.tokens", "", e.hasArgv => e.argv.toks = e.intent)
   /\ Check(tid, l, "P.argv.optprefix", "", e.hasArgv => e.argv.opt = e.obs.opt)
